@@ -102,6 +102,27 @@ def _pump(ctx, R, roles, li, T):
                         "store look-up passes (%s: %s, %s: %s); it must be (remote id, local id) of the caller's stream" % (show(t0), k0, show(t1), k1), f.loc(n.ast))
             R.check(sl in li.held(f, n), "LOCK-guard", sub + "|held", "look-up under the store lock", "store look-up without the store lock", f.loc(n.ast))
     R.count("KIND-find[%s]" % roles.tag, nfind, 2)
+    # the look-up matches the wire rule: plain find() for exact matching, find_allow_zeros() when zero ids are accepted
+    for n in g.live_nodes():
+        for e in n.exprs():
+            for x in ast.walk(e):
+                if isinstance(x, ast.IfExp) and any(call_attr(c) in ("find", "find_allow_zeros") for c in ast.walk(x) if isinstance(c, ast.Call)):
+                    t = unawait(x.test)
+                    neg = isinstance(t, ast.UnaryOp) and isinstance(t.op, ast.Not)
+                    nm = varkey(unawait(t.operand if neg else t))
+                    body_f = [call_attr(c) for c in ast.walk(x.body) if isinstance(c, ast.Call) and call_attr(c) in ("find", "find_allow_zeros")]
+                    else_f = [call_attr(c) for c in ast.walk(x.orelse) if isinstance(c, ast.Call) and call_attr(c) in ("find", "find_allow_zeros")]
+                    strict, zeros = (body_f, else_f) if neg else (else_f, body_f)
+                    R.check(nm == "allow_zeros" and strict == ["find"] and zeros == ["find_allow_zeros"], "KIND-find", "%s|mode|%s" % (f.qualname, norm_stmt(x)[:60]),
+                            "exact look-up unless allow_zeros, zero fall-backs only with allow_zeros (same rule as for packets read off the wire)",
+                            "the store look-up uses the zero fall-backs exactly when the wire match does not (or vice versa): a stream can be handed a parked packet that the wire rule would have refused", f.loc(n.ast))
+    # after a packet was taken out of the store the look-up is refreshed before the next get (the pair may be exhausted or gone)
+    get_nodes = [n for n in g.live_nodes() if _store_calls(ctx, f, n, ("get",))]
+    find_nodes = [n for n in g.live_nodes() if _store_calls(ctx, f, n, ("find", "find_allow_zeros"))]
+    for gn_ in get_nodes:
+        r = g.reach([gn_], avoid=find_nodes, exc=False)
+        R.check(not any(x in r for x in get_nodes), "RECHECK", "%s|refresh|%s" % (f.qualname, norm_stmt(gn_.ast)[:50]), "the look-up is repeated after every packet taken from the store",
+                "after taking a packet from the store the pump can take another one without looking the pair up again (stale key: an exhausted queue raises, a forgotten pair is a KeyError)", f.loc(gn_.ast))
     # get(): keyed by the pair the look-up returned
     for n in g.live_nodes():
         for c in _store_calls(ctx, f, n, ("get",)):
